@@ -20,6 +20,9 @@
 (*   OldDep      the algorithm before the fix (thin archive file and       *)
 (*               auxiliary files not pushed, string de-duplication): the   *)
 (*               broken variant TLC must reject                            *)
+(*   History     the environment action Vanish (an input that was read     *)
+(*               disappears after the re-verification, before the list is  *)
+(*               written) must not change the list                         *)
 (* TLC enumerates every command of up to MaxItems items and exports it     *)
 (* with Read(cmd); checks/c25.py builds the real files, links with         *)
 (* --dependency-file and compares; GNU ld and strace pin Read itself.      *)
@@ -43,6 +46,7 @@ Cmds == UNION {[1..n -> Items] : n \in 0..MaxItems}
 InputItems(cmd) == <<"o1">> \o SelectSeq(cmd, LAMBDA i : i \notin AuxItems)
 
 Rng(s) == {s[i] : i \in 1..Len(s)}
+AllFiles == {"o1", "o2", "o3", "o4", "tm1", "tm2", "A", "T", "S", "L1", "L2", "L3", "Z", "V", "Y", "E", "R"}
 
 (* ----------------------------------------------------------------------- *)
 (* The declarative rule                                                    *)
@@ -123,23 +127,56 @@ WildLinks(cmd) == LET L == Loaded(cmd, FALSE) IN
                   \A i, j \in 1..Len(L) : (i # j /\ L[i][1] \in Objects) => L[i][1] # L[j][1]
 
 (* ----------------------------------------------------------------------- *)
-VARIABLE cmd
-Init == cmd \in Cmds
-Next == UNCHANGED cmd
-Spec == Init /\ [][Next]_cmd
+(* HISTORY.  A link is not one instant: wild reads the inputs, re-verifies *)
+(* that none changed (verify_inputs_unchanged) and only then writes the    *)
+(* dependency file.  The environment may act in between: an input that was *)
+(* read can DISAPPEAR after the re-verification and before the dependency  *)
+(* file is written (a compiler driver deleting an intermediate, a parallel *)
+(* clean).  The rule is unchanged: the file's contents were read, so it is *)
+(* listed - the list is a function of what was read, not of what still     *)
+(* exists when the list is written.  A state starts at the point           *)
+(* "verified" (reading and verification are deterministic); Vanish is the  *)
+(* environment action (at most one file, only if History), WriteDep is     *)
+(* wild's step.  SkipVanished = TRUE is the broken variant (leave out      *)
+(* prerequisites that no longer exist) which TLC must reject.              *)
+CONSTANTS History, SkipVanished
 
-(* THE PROPERTY, as an invariant of the algorithm coded today, up to the one recorded omission *)
+VARIABLES cmd, phase, gone, dep
+vars == <<cmd, phase, gone, dep>>
+
+Init == cmd \in Cmds /\ phase = "verified" /\ gone = "none" /\ dep = <<>>
+
+Vanish(f) == /\ History /\ phase = "verified" /\ gone = "none"
+             /\ f \in Read(cmd)
+             /\ gone' = f
+             /\ UNCHANGED <<cmd, phase, dep>>
+
+Listed(c, g) == IF SkipVanished THEN SelectSeq(WildDep(c).deps, LAMBDA f : f # g) ELSE WildDep(c).deps
+
+WriteDep == /\ phase = "verified"
+            /\ phase' = "written"
+            /\ dep' = Listed(cmd, gone)
+            /\ UNCHANGED <<cmd, gone>>
+
+Next == WriteDep \/ \E f \in AllFiles : Vanish(f)
+Spec == Init /\ [][Next]_vars
+
+Written == phase = "written"
+TheDep == [target |-> "out", deps |-> dep]
+
+(* THE PROPERTY, as an invariant of the algorithm coded today, up to the one recorded omission:
+   whatever happened to the files after they were read *)
 DepOkExcept(d, c, X) == d.target = "out" /\ Rng(d.deps) = Read(c) \ X /\ NoDup(d.deps)
-CodedSatisfiesUpToRetain == DepOkExcept(WildDep(cmd), cmd, {"R"})
+CodedSatisfiesUpToRetain == Written => DepOkExcept(TheDep, cmd, {"R"})
 IdealSatisfies == DepOk(IdealDep(cmd), cmd)              \* the rule is implementable in full
 WildNeverExtra == Rng(WildDep(cmd).deps) \subseteq Read(cmd)
 (* must be violated (DepFile_claim.cfg): the retain file is still missing *)
-WildSatisfies == DepOk(WildDep(cmd), cmd)
+WildSatisfies == Written => DepOk(TheDep, cmd)
 (* must be violated (DepFile_old.cfg): the algorithm before the fix, the broken variant *)
 OldSatisfies == DepOk(OldDep(cmd), cmd)
 
-Emit == LET wd == WildDep(cmd) IN
-        PrintT(<<"REPLAY", ToJson([cmd |-> cmd, read |-> SetToSeq(Read(cmd)), wild |-> wd.deps,
-                                   wild_links |-> WildLinks(cmd), wild_ok |-> DepOk(wd, cmd),
-                                   old |-> OldDep(cmd).deps])>>)
+Emit == Written =>
+        PrintT(<<"REPLAY", ToJson([cmd |-> cmd, read |-> SetToSeq(Read(cmd)), wild |-> dep,
+                                   wild_links |-> WildLinks(cmd), wild_ok |-> DepOk(TheDep, cmd),
+                                   old |-> OldDep(cmd).deps, gone |-> gone])>>)
 =============================================================================
